@@ -299,7 +299,7 @@ func VerdictC09(h *History) string {
 	// The deadline clauses presuppose that the concurrency limit is not
 	// holding exports back: only judged when concurrency is unlimited and
 	// exports return at once.
-	if cfg.MaxConc != 0 || h.Sc.Gated || len(cfg.Keys) > 0 {
+	if cfg.MaxConc != 0 || h.Sc.Gated {
 		return ""
 	}
 	timeout := time.Duration(cfg.TimeoutMs) * time.Millisecond
@@ -310,9 +310,13 @@ func VerdictC09(h *History) string {
 			enter[it.ID] = e
 		}
 	}
+	judged := func(r int) bool {
+		c := h.Callers[r]
+		return c.Started && !h.ctxEverEnded(r) && !h.refused(c) && !(c.Done && c.Err != nil && len(cfg.Keys) > 0)
+	}
 	for id, r := range h.Owner {
 		c := h.Callers[r]
-		if !c.Started || h.ctxEverEnded(r) {
+		if !judged(r) {
 			continue
 		}
 		e := enter[id]
@@ -330,33 +334,41 @@ func VerdictC09(h *History) string {
 		}
 	}
 	// "exported as soon as the buffer reaches send_batch_size": at every
-	// quiescent point fewer than send_batch_size items are buffered (none at
-	// all in the immediate modes).
+	// quiescent point fewer than send_batch_size items are buffered per
+	// batcher, i.e. per metadata combination (none at all in the immediate
+	// modes).
+	combos := map[string]bool{}
+	for r := range h.Sc.Reqs {
+		combos[Combination(cfg.Keys, h.Sc.Reqs[r].Meta)] = true
+	}
 	for _, s := range h.Snaps {
 		if s.Step >= h.CleanupStep {
 			break
 		}
-		acc, exp := 0, 0
-		for _, c := range h.Callers {
-			if c.Started && c.StartStep <= s.Step && !h.ctxEverEnded(c.Req) {
-				acc += c.Items
+		for combo := range combos {
+			acc, exp := 0, 0
+			for _, c := range h.Callers {
+				if judged(c.Req) && c.StartStep <= s.Step && Combination(cfg.Keys, h.Sc.Reqs[c.Req].Meta) == combo {
+					acc += c.Items
+				}
 			}
-		}
-		for _, e := range h.Exports {
-			if e.EnterStep <= s.Step {
-				for _, it := range e.Items {
-					if !h.ctxEverEnded(h.Owner[it.ID]) {
-						exp++
+			for _, e := range h.Exports {
+				if e.EnterStep <= s.Step {
+					for _, it := range e.Items {
+						r := h.Owner[it.ID]
+						if judged(r) && Combination(cfg.Keys, h.Sc.Reqs[r].Meta) == combo {
+							exp++
+						}
 					}
 				}
 			}
-		}
-		buffered := acc - exp
-		if immediate && buffered != 0 {
-			return fmt.Sprintf("at step %d (t=%v) %d items are still buffered although timeout=%v / send_batch_size=%d demand immediate export", s.Step, s.At, buffered, timeout, cfg.Size)
-		}
-		if !immediate && buffered >= cfg.Size {
-			return fmt.Sprintf("at step %d (t=%v) %d items are buffered, which reaches send_batch_size=%d", s.Step, s.At, buffered, cfg.Size)
+			buffered := acc - exp
+			if immediate && buffered != 0 {
+				return fmt.Sprintf("at step %d (t=%v) %d items of combination [%s] are still buffered although timeout=%v / send_batch_size=%d demand immediate export", s.Step, s.At, buffered, combo, timeout, cfg.Size)
+			}
+			if !immediate && buffered >= cfg.Size {
+				return fmt.Sprintf("at step %d (t=%v) %d items of combination [%s] are buffered, which reaches send_batch_size=%d", s.Step, s.At, buffered, combo, cfg.Size)
+			}
 		}
 	}
 	return ""
